@@ -1,6 +1,9 @@
 //! Censuses: finite dimensions enumerated completely.
 
 pub fn materialize(spec: &str) -> Option<Vec<u8>> {
+    if let Some(rest) = spec.strip_prefix("tree:") {
+        return Some(rest.as_bytes().to_vec());
+    }
     if let Some(rest) = spec.strip_prefix("hist:") {
         return Some(rest.as_bytes().to_vec());
     }
